@@ -58,7 +58,7 @@ class Ctx:
         self.excluded = collections.Counter()
         self.inconclusive = 0
         self.metrics = {}
-        self._case_counted = False
+        self.slow_case = None
 
     # -- statistics -----------------------------------------------------
     def label(self, name, n=1):
@@ -97,6 +97,7 @@ class Ctx:
             "excluded": dict(self.excluded),
             "inconclusive": self.inconclusive,
             "metrics": self.metrics,
+            "slow_case": self.slow_case,
         }
 
 
@@ -133,6 +134,7 @@ def quiet():
 
 def _call_case(sub, case, ctx):
     ctx.evaluations += 1
+    t0 = time.time()
     try:
         with watchdog(sub.case_timeout):
             with quiet():
@@ -140,6 +142,12 @@ def _call_case(sub, case, ctx):
     except WatchdogTimeout:
         ctx.inconclusive += 1
         ctx.label("inconclusive:watchdog")
+    finally:
+        d = time.time() - t0
+        if d > ctx.metrics.get("slowest_case_s", 0):
+            ctx.metrics["slowest_case_s"] = round(d, 2)
+            if d > 5:
+                ctx.slow_case = {"seconds": round(d, 1), "case": case}
 
 
 def _shard_seed(seed, sub_name, shard):
@@ -341,6 +349,7 @@ def main(prop_id, tier, seed, only_sub=None):
     excluded = collections.Counter()
     inconclusive = 0
     metrics = {}
+    slow_cases = []
     for r in results:
         s = per_sub.setdefault(r["sub"], {"evaluations": 0, "labels": collections.Counter(),
                                           "nontrivial": set(), "wall": 0.0, "shards": 0,
@@ -360,6 +369,8 @@ def main(prop_id, tier, seed, only_sub=None):
                 samples.append({"sub": r["sub"], "case": smp})
         excluded.update(st["excluded"])
         inconclusive += st["inconclusive"]
+        if st.get("slow_case"):
+            slow_cases.append({"sub": r["sub"], **st["slow_case"]})
         for k, v in st["metrics"].items():
             if v > metrics.get(k, float("-inf")):
                 metrics[k] = v
@@ -423,6 +434,7 @@ def main(prop_id, tier, seed, only_sub=None):
             "excluded_known": dict(excluded),
             "inconclusive": inconclusive,
             "metrics": metrics,
+            "slow_cases": sorted(slow_cases, key=lambda x: -x["seconds"])[:3],
         },
         "assumptions": list(getattr(mod, "ASSUMPTIONS", [])),
         "wall_s": round(wall, 2),
@@ -440,6 +452,8 @@ def main(prop_id, tier, seed, only_sub=None):
     for k, v in per_sub.items():
         print("  sub %-28s cases=%-6d nontrivial=%-6d wall=%.0fs" %
               (k, v["evaluations"], len(v["nontrivial"]), v["wall"]))
+    for sc in sorted(slow_cases, key=lambda x: -x["seconds"])[:2]:
+        print("  slow case (%ss) in %s: %s" % (sc["seconds"], sc["sub"], json.dumps(sc["case"])[:400]))
     for l in known_lines:
         print(l)
     for l in lines:
